@@ -12,7 +12,7 @@ import prelude as P
 NAME = 'enum_certs'
 BACKEND = 'enum'
 CR = 'crates/anemo/src/crypto.rs'
-COVER = {'server_cert_verifier': [0, 1], 'client_cert_verifier': [0, 1], 'pinned_server_cert_verifier': [0, 1], 'handshake_signature_history': [0, 1, 2]}
+COVER = {'server_cert_verifier': [0, 1], 'client_cert_verifier': [0, 1], 'pinned_server_cert_verifier': [0, 1], 'handshake_signature_history': [0, 1, 2, 3]}
 
 PRELUDE = r'''// GENERATED on every run by /verif/vc from /repo's working tree -- do not edit
 #![allow(dead_code, unused, non_upper_case_globals, non_camel_case_types)]
@@ -64,7 +64,8 @@ pub mod rustls {
     #[derive(Debug)] pub enum Error { InvalidCertificate(CertificateError), UnsupportedNameType, General(String), PeerMisbehaved }
     // ---- handshake signatures (CertificateVerify): `signer` is the private key that made the signature, `over` the transcript it was made over
     #[derive(Clone, Copy, PartialEq, Eq, Debug)] pub enum SignatureScheme { ED25519, ECDSA_NISTP256_SHA256 }
-    #[derive(Clone, Debug)] pub struct DigitallySignedStruct { pub scheme: SignatureScheme, pub signer: u8, pub over: u8 }
+    #[derive(Clone, Debug)] pub struct DigitallySignedStruct { pub scheme: SignatureScheme, pub signer: u8, pub over: u8, pub sig: [u8; 2] }
+    impl DigitallySignedStruct { pub fn new(scheme: SignatureScheme, signer: u8, over: u8) -> Self { DigitallySignedStruct { scheme, signer, over, sig: [signer, over] } } pub fn signature(&self) -> &[u8] { &self.sig } }
     #[derive(Clone, Debug)] pub struct DistinguishedName;
     pub mod client { pub mod danger { #[derive(Debug)] pub struct HandshakeSignatureValid(()); impl HandshakeSignatureValid { pub fn assertion() -> Self { HandshakeSignatureValid(()) } }
         pub use super::super::super::{ServerCertVerified, ServerCertVerifier}; } }
@@ -90,6 +91,16 @@ pub mod rustls {
     }
 }
 pub use rustls::crypto::WebPkiSupportedAlgorithms;
+// ring, for edits that check signatures themselves: a signature is (the key that made it, the transcript it was made over)
+pub mod ring { pub mod signature {
+    pub struct Alg; pub static ED25519: Alg = Alg;
+    #[derive(Debug)] pub struct Unspecified;
+    pub struct UnparsedPublicKey<B> { pub key: B }
+    impl<B: AsRef<[u8]>> UnparsedPublicKey<B> {
+        pub fn new(_alg: &'static Alg, key: B) -> Self { UnparsedPublicKey { key } }
+        pub fn verify(&self, message: &[u8], signature: &[u8]) -> Result<(), Unspecified> { if signature.len() == 2 && self.key.as_ref().first() == Some(&signature[0]) && message.first() == Some(&signature[1]) { Ok(()) } else { Err(Unspecified) } }
+    }
+} }
 pub static mut SIG_CALLS: u32 = 0;
 pub mod webpki {
     use super::*;
@@ -210,7 +221,7 @@ pub mod harness {
     }
     fn valid_for(c: &CertificateDer, name: &str) -> bool { match NAMES.iter().position(|n| *n == name) { Some(i) => c.names & (1 << i) != 0, None => false } }
     pub fn server_cert_verifier(ch: &mut Chooser) { // @EOBL [C14,C01] @BOUNDED CertVerifier::verify_server_cert (what a dialer runs on the listener's certificate) for every certificate of the model (2 keys x signed by either x Ed25519 / ECDSA x well-formed or not x valid / expired / not yet valid x 4 extended-key-usage sets x every subset of 3 names), with and without an extra certificate in the chain, verifier configured for [net] or [net, alt], requested name net / alt / other / an IP address: accepted iff the certificate is a well-formed, currently valid, SELF-signed Ed25519 certificate permitting server authentication, the requested name is one the verifier is configured for AND the certificate is valid for that name; never a panic
-        let v = CertVerifier { server_names: names_of(ch) };
+        let v = mk_verifier(names_of(ch));
         let cert = any_cert(ch);
         let extra = if ch.any_bool() { let k = cert.signed_by; vec![CertificateDer { key: k, signed_by: k, alg: AlgId::Ed25519, well_formed: true, validity: 0, eku: 0, names: 7, p: PhantomData }] } else { Vec::new() };
         let req = ch.below(4);
@@ -225,7 +236,7 @@ pub mod harness {
         assert!(r.is_ok() == want, "verify_server_cert accepted a certificate the statement refuses, or refused one it accepts");
     }
     pub fn pinned_server_cert_verifier(ch: &mut Chooser) { // @EOBL [C14,C03,C01] @BOUNDED ExpectedCertVerifier::verify_server_cert (what a dial naming an identity runs on the listener's certificate) over the same certificate model, verifier configured for [net] or [net, alt], expected identity key 1, requested name net / alt / other / an IP address: accepted iff the certificate's own key IS the expected identity AND everything the unpinned verifier demands holds too (well-formed, valid, self-signed Ed25519, server authentication permitted, requested name configured, certificate valid for that name)
-        let v = ExpectedCertVerifier(CertVerifier { server_names: names_of(ch) }, PeerId([1; 32]));
+        let v = ExpectedCertVerifier(mk_verifier(names_of(ch)), PeerId([1; 32]));
         let cert = any_cert(ch);
         let extra = if ch.any_bool() { let k = cert.signed_by; vec![CertificateDer { key: k, signed_by: k, alg: AlgId::Ed25519, well_formed: true, validity: 0, eku: 0, names: 7, p: PhantomData }] } else { Vec::new() };
         let req = ch.below(4);
@@ -240,8 +251,10 @@ pub mod harness {
         assert!(r.is_ok() == want, "the pinning verifier accepted a certificate the statement refuses, or refused one it accepts");
     }
     pub const SIG_HISTORY_STEPS: usize = 2;
-    pub fn handshake_signature_history(ch: &mut Chooser) { // @EOBL [C01,C03] @BOUNDED the six real verify_tls1{2,3}_signature impls and supported_verify_schemes (listener-side CertVerifier, dialer-side CertVerifier, pinning ExpectedCertVerifier) on the model of rustls' handshake-signature check, for every HISTORY of SIG_HISTORY_STEPS verifications in one process (the thorough tier: 3, by one verifier), each with any certificate (key 1|2, Ed25519|ECDSA, well-formed or not) and any signature (scheme ED25519|ECDSA, made by key 1|2|3, over this handshake's transcript or another): a verification succeeds iff the certificate is a well-formed Ed25519 certificate, the scheme is ED25519 and the signature was made by the certificate's OWN private key over THIS handshake's transcript -- whatever was verified before (no certificate is ever remembered as already proved); the schemes offered are exactly [ED25519]; never a panic
+    pub fn handshake_signature_history(ch: &mut Chooser) { // @EOBL [C01,C03] @BOUNDED the six real verify_tls1{2,3}_signature impls and supported_verify_schemes (listener-side CertVerifier, dialer-side CertVerifier, pinning ExpectedCertVerifier) on the model of rustls' handshake-signature check, for every HISTORY of SIG_HISTORY_STEPS verifications in one process (the thorough tier: 3, by one verifier), each with any certificate (key 1|2, Ed25519|ECDSA, well-formed or not) and any signature (scheme ED25519|ECDSA, made by key 1|2|3, over this handshake's transcript or another): a verification succeeds iff the certificate is a well-formed Ed25519 certificate, the scheme is ED25519 and the signature was made by the certificate's OWN private key over THIS handshake's transcript -- whatever was verified before and whatever other handshake's Certificate message the shared verifier processed in between (no certificate is ever remembered as already proved, no key is remembered across messages); the schemes offered are exactly [ED25519]; never a panic
         let same = SIG_HISTORY_STEPS > 2;
+        let cv = mk_verifier(vec!["net".to_owned()]);
+        let pinned = ExpectedCertVerifier(mk_verifier(vec!["net".to_owned()]), PeerId([1; 32]));
         let mut which = ch.below(3);
         let mut seen: Vec<(u8, bool)> = Vec::new();
         for step in 0..SIG_HISTORY_STEPS {
@@ -250,11 +263,18 @@ pub mod harness {
             let cert = CertificateDer { key: 1 + ch.below(2) as u8, signed_by: 0, alg: if ch.any_bool() { AlgId::Ed25519 } else { AlgId::EcdsaP256 }, well_formed: ch.any_bool(), validity: 0, eku: 0, names: 1, p: PhantomData };
             let cert = CertificateDer { signed_by: cert.key, ..cert };
             let transcript = [7u8 + step as u8, 0, 0];
-            let dss = rustls::DigitallySignedStruct { scheme: if ch.any_bool() { rustls::SignatureScheme::ED25519 } else { rustls::SignatureScheme::ECDSA_NISTP256_SHA256 },
-                                                      signer: 1 + ch.below(3) as u8, over: if ch.any_bool() { transcript[0] } else { 99 } };
+            let dss = rustls::DigitallySignedStruct::new(if ch.any_bool() { rustls::SignatureScheme::ED25519 } else { rustls::SignatureScheme::ECDSA_NISTP256_SHA256 },
+                                                         1 + ch.below(3) as u8, if ch.any_bool() { transcript[0] } else { 99 });
             let want = cert.well_formed && cert.alg == AlgId::Ed25519 && dss.scheme == rustls::SignatureScheme::ED25519 && dss.signer == cert.key && dss.over == transcript[0];
-            let cv = CertVerifier { server_names: vec!["net".to_owned()] };
-            let pinned = ExpectedCertVerifier(CertVerifier { server_names: vec!["net".to_owned()] }, PeerId([1; 32]));
+            // the verifier is ONE object shared by every handshake of the endpoint: between this handshake's Certificate message and its CertificateVerify,
+            // the Certificate message of ANOTHER handshake may be processed (a well-formed certificate of key 3)
+            let this = CertificateDer { names: 1, ..cert.clone() };
+            let _ = match which { 0 => cv.verify_client_cert(&this, &[], UnixTime).map(|_| ()), 1 => ServerCertVerifier::verify_server_cert(&cv, &this, &[], &ServerName::DnsName(DnsName("net")), &[], UnixTime).map(|_| ()), _ => pinned.verify_server_cert(&this, &[], &ServerName::DnsName(DnsName("net")), &[], UnixTime).map(|_| ()) };
+            if ch.any_bool() {
+                let other = CertificateDer { key: 3, signed_by: 3, alg: AlgId::Ed25519, well_formed: true, validity: 0, eku: 0, names: 1, p: PhantomData };
+                let _ = match which { 0 => cv.verify_client_cert(&other, &[], UnixTime).map(|_| ()), _ => ServerCertVerifier::verify_server_cert(&cv, &other, &[], &ServerName::DnsName(DnsName("net")), &[], UnixTime).map(|_| ()) };
+                cover(3);
+            }
             let (r, schemes) = match (which, tls13) {
                 (0, false) => (ClientCertVerifier::verify_tls12_signature(&cv, &transcript, &cert, &dss), ClientCertVerifier::supported_verify_schemes(&cv)),
                 (0, true) => (ClientCertVerifier::verify_tls13_signature(&cv, &transcript, &cert, &dss), ClientCertVerifier::supported_verify_schemes(&cv)),
@@ -272,7 +292,7 @@ pub mod harness {
         }
     }
     pub fn client_cert_verifier(ch: &mut Chooser) { // @EOBL [C14,C01] @BOUNDED CertVerifier::verify_client_cert (what a listener runs on a dialer's certificate) over the same certificate model, with and without an extra certificate in the chain, listener configured for [net] or [net, alt]: accepted iff the certificate is a well-formed, currently valid, SELF-signed Ed25519 certificate permitting client authentication that is valid for at least one of the names the listener accepts; never a panic
-        let v = CertVerifier { server_names: names_of(ch) };
+        let v = mk_verifier(names_of(ch));
         let cert = any_cert(ch);
         let extra = if ch.any_bool() { let k = cert.signed_by; vec![CertificateDer { key: k, signed_by: k, alg: AlgId::Ed25519, well_formed: true, validity: 0, eku: 0, names: 7, p: PhantomData }] } else { Vec::new() };
         let want = acceptable(&cert, 2) && v.server_names.iter().any(|s| valid_for(&cert, s));
@@ -296,7 +316,12 @@ def build(ctx):
     t += P.peer_types(C).replace('#[derive(Copy, Clone, Hash, PartialEq, Eq, PartialOrd, Ord)]\npub struct PeerId', '#[derive(Copy, Clone, Hash, PartialEq, Eq, PartialOrd, Ord, Debug)]\npub struct PeerId')
     t += C.item(CR, 'static SUPPORTED_SIG_ALGS')
     t += C.item(CR, 'static SUPPORTED_ALGORITHMS')
-    t += C.item(CR, 'struct CertVerifier', derives=False)
+    cv_item = C.item(CR, 'struct CertVerifier', derives=False)
+    t += cv_item
+    import re as _re
+    fields = _re.findall(r'pub\s+(\w+)\s*:', cv_item.split('struct CertVerifier', 1)[1].split('}', 1)[0])
+    extra = ''.join(' %s: Default::default(),' % f for f in fields if f != 'server_names')
+    t += '// every field an edit adds to the verifier starts from its default\npub fn mk_verifier(server_names: Vec<String>) -> CertVerifier { CertVerifier { server_names,%s } }\n' % extra
     t += C.item(CR, 'type CertChainAndRoots')
     t += C.fn(CR, 'fn prepare_for_self_signed', 'prepare_for_self_signed', ['C14', 'C01'], probe=False)
     t += C.fn(CR, 'fn pki_error', 'pki_error', ['C14'], probe=False)
